@@ -99,9 +99,10 @@ prop('C15', contracts=['c15_version'],
      technique=TECH + 'the six comparison operators, newer() and schedule._diff proved; schedule.build by the bounded stand-in',
      explanation='PROVED for all integer triples: ==, !=, <, <=, >, >= and newer() equal the lexicographic order on (design, impl, bugfix), with trichotomy/transitivity/antisymmetry lemmas; _diff returns exactly the names whose current version is not among the persisted ones. BOUNDED ONLY: version.current and schedule.build queue exactly the owners.',
      trusted_base=['namedtuple VERSION as an immutable record'], assumptions=[A3, A4])
-prop('C16', contracts=[],
-     technique='not decided deductively yet: bounded enumeration of generated engine packages (labelled bounded)',
-     explanation='BOUNDED ONLY: every subset of factory kinds per package, every single-rule violation at every position, accepted packages fed to Construct/build/periodics',
+prop('C16', contracts=['c16_compliant'],
+     technique=TECH + 'the verdict of tools.compliant._verify as the conjunction of every rule over every package (loop invariants, choice-function witnesses, raising rules); the rules themselves and "accepted => schedulable" by bounded enumeration of generated engine packages',
+     explanation='PROVED: _verify answers True exactly when every rule_* function returned True WITHOUT raising on every package handed to it: one rule answering False or raising on one package makes the gate reject, whatever silent/verbose are, and nothing else makes it reject. BOUNDED ONLY: what each rule accepts (every subset of factory kinds per package, every single-rule violation at every position), the coverage of _walk, accepted packages fed to Construct/build/periodics.',
+     trusted_base=['rule_* functions as uninterpreted (returns-true, raises) predicates of (rule, package)', '_get_rules as a fixed set of rule names'],
      assumptions=[A5])
 prop('C17', contracts=['c17_search'],
      technique=TECH + 'paging of SearchImplementation._find and Range membership proved; matching and normalisation by the bounded stand-in',
